@@ -34,7 +34,7 @@ class C05(Prop):
     reach = ["dup_first_segment_of_record", "dup_after_later_data", "reorder_across_record_boundary", "seq_wrap_in_record",
              "seq_wrap_in_conn", "header_split", "one_byte_segments", "record_spans_3_segments", "dup_late", "sweep",
              "with_checksum_option", "retransmission_with_other_boundaries",
-             "bulk_direction_over_64k"]
+             "bulk_direction_over_64k", "duplicate_after_more_than_1024_segments"]
     exhaustive_note = "all 2^10 (quick) / 2^12 (thorough) cut sets of a 2-record client stream of 11 / 13 bytes at the record-handler level"
 
     def sweep_bits(self, tier):
@@ -99,6 +99,24 @@ class C05(Prop):
                     else:
                         plan["isn_" + d] = P.bits(32)
             plans.append(plan)
+        if conn.get("bulk") and idx % 40 == 7:
+            # aimed plan: the bulk flight is cut into 64 byte segments (well over a thousand); its first segment is lost
+            # and captured only ~1100 segments later, and just before it a spurious exact retransmission of the second
+            # segment arrives - duplicate suppression must still know a segment it saw more than a thousand segments ago
+            from .. import tlsconn
+            fl, _, _ = tlsconn.build(conn)
+            c3 = copy.deepcopy(conn)
+            d = [r["d"] for r in conn["recs"] if r["n"] >= 12000][0]
+            n = sum(len(w.raw) for f in fl for w in f[d])
+            c3["tcp"]["cutmode"] = "explicit"
+            c3["tcp"]["cuts"] = {d: list(range(64, n, 64)), ("s" if d == "c" else "c"): []}
+            units, _, _ = world.tcp_units(c3, fl)
+            big = max(range(len(units)), key=lambda i: len(units[i][d]))
+            if len(units[big][d]) > 1150:
+                j0 = units[big][d][0]["seg"]
+                plans.append({"cutmode": "explicit", "cuts": c3["tcp"]["cuts"], "seg_policy": "aimed-64-late-head",
+                              "acts": {d: [[j0, "delay", 1100], [j0 + 1, "dup", 1098]]}})
+                conn["aimed_late_head"] = True
         spec = {"prop": "C05", "mode": "plans", "conns": [conn], "tap": gen.gen_tap(R.fork("tap")), "plans": plans}
         if R.chance(20):
             # every simulated segment carries a correct checksum: -c must accept each of them, however the stream is cut
@@ -351,6 +369,8 @@ class C05(Prop):
         out.add("seg_policy", plan.get("seg_policy"))
         if spec["conns"][0].get("bulk"):
             out.count("reach:bulk_direction_over_64k")
+        if plan.get("seg_policy") == "aimed-64-late-head":
+            out.count("reach:duplicate_after_more_than_1024_segments")
         if spec.get("cli", {}).get("c"):
             out.count("reach:with_checksum_option")
         if any(a[1] in ("dup_merge", "dup_half") for d in "cs" for a in (plan.get("acts") or {}).get(d, [])):
